@@ -42,6 +42,7 @@ from harness import ref_wire as RW
 from harness.runner import Result, library_frame
 
 ID = "C19"
+OPTIMIZED_PASS = True      # the whole search runs once more under python -OO (harness/runner.py)
 LEVEL = "exploration"
 RULE = ("one case = (protocol, byte stream, two chunkings); streams are drawn from the protocol grammar (see module "
         "docstring); distinct by fingerprint of (stream, chunkings); the deterministic sweep is distinct by construction; non-trivial = the reference deframer drops at least one "
